@@ -421,3 +421,18 @@ Proof.
   rewrite (skipn_all2 xb) by lia. rewrite (skipn_all2 (n := a) xb) by lia. cbn [app].
   rewrite (skipn_all2 ws) by lia. cbn [app]. f_equal. lia.
 Qed.
+
+(* corollary: the sequence of kinds does not change *)
+Lemma map_kind_shift d ts : map tk_kind (map (shift_tok d) ts) = map tk_kind ts.
+Proof. rewrite map_map. apply map_ext. intros [[k a] e]. reflexivity. Qed.
+
+Theorem ws_replace_kinds : forall U, ascii_ok U -> forall (xb ws1 ws2 bb : list byte),
+  Forall ws_byte ws1 -> Forall ws_byte ws2 -> ws1 <> [] -> ws2 <> [] ->
+  forall pre t post,
+    fst (lex_with U (xb ++ ws1 ++ bb)) = pre ++ t :: post -> post <> [] -> tk_end t = length xb ->
+    map tk_kind (fst (lex_with U (xb ++ ws2 ++ bb))) = map tk_kind (fst (lex_with U (xb ++ ws1 ++ bb))).
+Proof.
+  intros U HU xb ws1 ws2 bb W1 W2 N1 N2 pre t post H1 Hpost Hend.
+  destruct (ws_replace_bytes U HU xb ws1 ws2 bb W1 W2 N1 N2 pre t post H1 Hpost Hend) as (base & Eb & _ & E2).
+  rewrite E2, H1, Eb. rewrite !map_app. cbn [map]. now rewrite !map_kind_shift.
+Qed.
